@@ -23,6 +23,7 @@ structure IndCase where
   cmpVals : Bool := true
   cmpSigs : Bool := true
   cmpRange : Bool := true
+  cmpDoc : Bool := true
   sigHold : Nat := 0            -- steps during which the detector states resynchronise after a non-finite value
   nVals : Nat := 0              -- values actually compared (not exempt)
   nSigs : Nat := 0              -- signals actually compared
@@ -384,6 +385,8 @@ def stepIndicator (d : Drv) (line : String) : Drv × Option String :=
               if undefined then ({ d with cs := .ind i, exempt := d.exempt + 1 }, none)
               else if residue then
                 imismatch d "ind-range" (i.name ++ ":" ++ (m.splitOn " ").headD "" ++ "-residue") m line (.ind { i with cmpRange := false })
+              else if ((m.splitOn " ").headD "").endsWith "doc-range" then
+                imismatch d "ind-range" (i.name ++ ":" ++ (m.splitOn " ").headD "") m line (.ind { i with cmpRange := false })
               else imismatch d "ind-range" (tag m) m line (.ind { i with cmpRange := false })
             | none, some m, _ =>
               let cls := if (m.splitOn "non-finite").length > 1 then "ind-finite" else "ind-value"
@@ -392,7 +395,11 @@ def stepIndicator (d : Drv) (line : String) : Drv × Option String :=
               let sub := if i.kinds.contains "vidya" then "vidya" else tag m
               imismatch d cls sub m line (.ind { i with cmpVals := false })
             | none, none, some m => imismatch d "ind-signal" (tag m) m line (.ind { i with cmpSigs := false })
-            | none, none, none => ({ d with cs := .ind i }, none)
+            | none, none, none =>
+              -- everything agrees with the model of the code; does the code agree with its documentation?
+              match (if i.cmpDoc && finite then docCheck i.name so rv st else none) with
+              | some (cls, sub, m) => imismatch d cls sub m line (.ind { i with cmpDoc := false })
+              | none => ({ d with cs := .ind i }, none)
   | _, _ => (d, none)
 
 def step (d : Drv) (line : String) : Drv × Option String :=
